@@ -404,7 +404,7 @@ func newTxRun(c *Ctx, sc *txScenario, ns *NodeSim) *txRun {
 	ns.Trusted.AnnounceChunk = 8
 	ns.Trusted.ServeTx = func(id bitcoin.Hash32) *wire.MsgTx { return tr.serve("trusted", id) }
 	ns.LinkFor = func(addr string) *Link {
-		return &Link{BaseLatency: sc.latBase, Jitter: sc.latJitter, Tape: c.Scen}
+		return &Link{BaseLatency: sc.latBase, Jitter: sc.latJitter, Tape: c.Scen, Coalesce: c.Scen.Bool(1, 2)}
 	}
 	if sc.untrusted > 0 {
 		repo := storage.NewPeerRepository(ns.Disk)
